@@ -250,11 +250,88 @@ def check_store_fetch_names(rep, ctx):
     rep.functions_encoded.append(ctx.method("KeyKeeper", "check_local_key"))
 
 
+FS_MUT = re.compile(r"(^|::)(remove_file|remove_dir|remove_dir_all|rename|hard_link|symlink|set_permissions|set_len|create_new)$|(^|fs::)(write|copy)$|File::create$|OpenOptions::open$|File::options$")
+
+
+def _standalone_fs_ops(ctx, path):
+    """file-system mutating calls a crate helper can make (stand-alone exploration, new helpers inlined)"""
+    eng = ctx.engine(loop_bound=1, max_paths=2000, timeout=60)
+    eng.auto_inline = ctx.new_function_auto()
+    ops = set()
+    for r in eng.explore(path):
+        for e in r.events:
+            if e.kind in ("call", "await") and FS_MUT.search(e.callee):
+                ops.add(e.callee.split("::")[-1])
+    return ops
+
+
+def check_key_store_untouched(rep, ctx):
+    """'a key the host regards as attested is always present': within the key step the key store is modified by the store step alone
+    (json_write_to_file under the final name) - nothing in the step removes, truncates, re-creates or renames a file; and inside the store
+    helper nothing creates or opens-for-writing the final name before the atomic write (a crash would leave a short file under it)"""
+    import callgraph
+    eng, paths = key_section(ctx, rep)
+    cg = callgraph.CallGraph(ctx.idx)
+    cg.set_src(ctx.src)
+    bf = os.path.join(os.path.dirname(os.path.abspath(__file__)), "baseline_fn_names.txt")
+    baseline = set(open(bf).read().split()) if os.path.exists(bf) else set()
+    direct, helpers = {}, {}
+    for r in paths:
+        for e in r.events:
+            if e.kind not in ("call", "await"):
+                continue
+            if FS_MUT.search(e.callee):
+                direct[e.callee] = direct.get(e.callee, 0) + 1
+            elif callgraph.last_seg(e.callee) not in baseline and e.callee not in helpers:
+                c = []
+                for caller in (e.site[0] if e.site else None, ctx.method("KeyKeeper", "loop_poll") + "::{closure#0}", None):
+                    try:
+                        c = cg.resolve(e.callee, caller)
+                    except Exception:
+                        c = []
+                    if len(c) == 1:
+                        break
+                if len(c) == 1:
+                    helpers[e.callee] = next(iter(c))
+                elif re.search(r"(KeyKeeper|Self|key_keeper)::", e.callee):
+                    helpers[e.callee] = None        # a function of the key keeper the analysis cannot look into
+    rep.add(Query("key step: no file is removed, renamed, re-created or re-permissioned outside the store step's atomic write (%d paths)" % len(paths), "holds" if not direct else "violated",
+                  "file-system calls in the step: %s" % sorted(direct), 0, "mirsym", key="C08.store-untouched", reproduced=None))
+    for callee, path in sorted(helpers.items()):
+        if path is None:
+            rep.add(Query("key step: helper %s (new since the obligations were written) examined" % callee, "inconclusive", "its body could not be located", 0, "mirsym", key="C08.store-untouched"))
+            continue
+        try:
+            ops = _standalone_fs_ops(ctx, path)
+        except Exception as ex:
+            rep.add(Query("key step: helper %s (new since the obligations were written) examined" % callee, "inconclusive", repr(ex)[:200], 0, "mirsym", key="C08.store-untouched"))
+            continue
+        rep.functions_encoded.append(path)
+        rep.add(Query("key step: helper %s makes no file-system modification" % callee, "holds" if not ops else "violated", "the helper can call %s" % sorted(ops), 0, "mirsym", key="C08.store-untouched", reproduced=None))
+    # inside the store helper
+    w = ctx.method("KeyKeeper", "store_local_key")
+    e2 = ctx.engine(loop_bound=1, max_paths=2000)
+    e2.auto_inline = ctx.new_function_auto()
+    n = 0
+    for i, r in enumerate(e2.explore(w)):
+        jw = [e for e in r.events if e.kind == "call" and e.callee.endswith("json_write_to_file")]
+        if not jw:
+            continue
+        n += 1
+        k = r.events.index(jw[0])
+        before = sorted({e.callee.split("::")[-1] for e in r.events[:k] if e.kind == "call" and FS_MUT.search(e.callee)})
+        after = sorted({e.callee.split("::")[-1] for e in r.events[k + 1:] if e.kind == "call" and FS_MUT.search(e.callee) and not e.callee.endswith("set_permissions")})
+        rep.add(Query("store_local_key path %d: nothing touches the file system before the atomic write, and nothing but permissions after it" % i, "holds" if not before and not after else "violated",
+                      "before: %s; after: %s" % (before, after), 0, "mirsym", key="C08.store-only-atomic", reproduced=None))
+    rep.add(Query("witness: store_local_key reaches json_write_to_file", "witness-hit" if n else "witness-missed", "%d" % n, 0, "mirsym"))
+
+
 def check(rep, tier, seed):
     ctx = Ctx("agent")
     rep.extra["mir_dump"] = {"cache_hit": ctx.dump.cache_hit, "tree_hash": ctx.dump.hash, "seconds": round(ctx.dump.seconds, 1)}
     check_key_section(rep, ctx)
     check_store_fetch_names(rep, ctx)
+    check_key_store_untouched(rep, ctx)
     check_file_protocol(rep)
     rep.assumptions += ["rename(2) is atomic (POSIX)", "Future::poll returns Ready", "a crash is a prefix of a path's event trace: the obligations are orderings, so they hold for every prefix"]
     rep.outside_claim += ["durability against power loss (no fsync in the code)", "the Windows encrypted store", "host-side behaviour"]
